@@ -21,6 +21,13 @@
 #include <string>
 #include <vector>
 
+// harness-only peek at m_firstFreeBlock / m_nextFreeBlock (all standard headers are already included above)
+#include <xalanc/PlatformSupport/ArenaBlockBase.hpp>
+#define private public
+#include <xalanc/PlatformSupport/ReusableArenaBlock.hpp>
+#include <xalanc/Include/XalanDeque.hpp>
+#undef private
+
 struct Refused {};
 
 class FaultManager : public xercesc::MemoryManager
@@ -99,8 +106,22 @@ struct PeekList : public BList
     static bool hasHead(BList& l) { return static_cast<PeekList&>(l).m_listHead != 0; }
 };
 
+typedef ReusableArenaBlock<Boxed, unsigned short> RBlock;
+typedef XalanDeque<long> LDeque;
+
+struct PeekBlock : public RBlock
+{
+    static Boxed* base(RBlock& b) { return static_cast<PeekBlock&>(b).m_objectBlock; }
+    static long count(RBlock& b) { return static_cast<PeekBlock&>(b).m_objectCount; }
+    static long first(RBlock& b) { return static_cast<PeekBlock&>(b).m_firstFreeBlock; }
+    static long next(RBlock& b) { return static_cast<PeekBlock&>(b).m_nextFreeBlock; }
+};
+
 struct State
 {
+    RBlock* arena = 0;
+    std::vector<bool> isObj;
+    LDeque* deque = 0;
     FaultManager* fm = 0;
     BList* list = 0;
     LVec* vec = 0;
@@ -112,6 +133,8 @@ struct State
         list = new BList(*fm);
         vec = new LVec(*fm);
         created.clear();
+        arena = 0; isObj.clear();
+        deque = 0;
     }
 };
 
@@ -137,6 +160,37 @@ static std::string showVec(State& s)
     std::ostringstream o;
     o << s.vec->size() << " " << s.vec->capacity() << " :";
     for (size_t i = 0; i < s.vec->size(); ++i) o << " " << (*s.vec)[i];
+    return o.str();
+}
+
+static bool dequeLastNull(State& s) { return !s.deque->m_blockIndex.empty() && s.deque->m_blockIndex.back() == 0; }
+
+// the index ends in the null placeholder: does the real size() (what push_back/back()/clear() also do) survive it?
+static bool dequeNullIsFatal(State& s);
+
+static std::string showDeque(State& s)
+{
+    std::ostringstream o;
+    o << "idx=" << s.deque->m_blockIndex.size() << " free=" << s.deque->m_freeBlockVector.size() << " :";
+    for (size_t b = 0; b < s.deque->m_blockIndex.size(); ++b)
+    {
+        LDeque::BlockType* blk = s.deque->m_blockIndex[b];
+        if (blk == 0) continue;
+        for (size_t i = 0; i < blk->size(); ++i) o << " " << (*blk)[i];
+    }
+    return o.str();
+}
+
+static std::string showArena(State& s, bool full)
+{
+    std::ostringstream o;
+    if (full) o << "full ";
+    for (size_t i = 0; i < s.isObj.size(); ++i)
+    {
+        if (s.isObj[i]) o << "o" << PeekBlock::base(*s.arena)[i].v << " "; else o << "- ";
+    }
+    o << "cnt=" << PeekBlock::count(*s.arena) << " pend=" << (PeekBlock::first(*s.arena) != PeekBlock::next(*s.arena) ? 1 : 0)
+      << " ff=" << PeekBlock::first(*s.arena);
     return o.str();
 }
 
@@ -173,6 +227,12 @@ static bool survives(F f)
 }
 
 #include <fcntl.h>
+
+static bool dequeNullIsFatal(State& s)
+{
+    LDeque* d = s.deque;
+    return !survives([d]() { volatile size_t n = d->size(); (void)n; });
+}
 
 int main()
 {
@@ -260,11 +320,73 @@ int main()
                 if (out == "ub") dead = true;
                 std::cout << tail(s, out, showVec(s)) << "\n";
             }
+            else if (a == "d")
+            {
+                if (b == "new") { s.deque = new LDeque(*s.fm, 0, size_t(x)); }
+                else if (s.deque == 0) { std::cout << "bad\n"; continue; }
+                else if (b == "push") { if (dequeLastNull(s)) out = dequeNullIsFatal(s) ? "ub" : "null-survived"; else s.deque->push_back(x); }
+                else if (b == "size")
+                {
+                    if (dequeLastNull(s)) out = dequeNullIsFatal(s) ? "ub" : "null-survived";
+                    else { std::ostringstream o; o << "size=" << s.deque->size(); std::cout << tail(s, out, o.str()) << "\n"; continue; }
+                }
+                else if (b == "destroy")
+                {
+                    delete s.deque; s.deque = 0;
+                    std::cout << tail(s, out, "destroyed") << "\n";
+                    continue;
+                }
+                else out = "bad";
+                if (out == "ub") dead = true;
+                std::cout << tail(s, out, showDeque(s)) << "\n";
+            }
+            else if (a == "a")
+            {
+                bool full = false;
+                if (b == "new")
+                {
+                    s.arena = 0; s.isObj.clear();
+                    s.arena = RBlock::create(*s.fm, size_t(x));
+                    s.isObj.assign(size_t(x), false);
+                }
+                else if (s.arena == 0) { std::cout << "bad\n"; continue; }
+                else if (b == "create")
+                {
+                    Boxed* p = s.arena->allocateBlock();
+                    if (p == 0) full = true;
+                    else
+                    {
+                        new (p) Boxed(x, *s.fm);                 // may throw: the slot stays uncommitted
+                        s.arena->commitAllocation(p);
+                        s.isObj[size_t(p - PeekBlock::base(*s.arena))] = true;
+                    }
+                }
+                else if (b == "destroy")
+                {
+                    if (x < 0 || size_t(x) >= s.isObj.size() || !s.isObj[size_t(x)]) out = "ub";
+                    else { s.arena->destroyObject(PeekBlock::base(*s.arena) + x); s.isObj[size_t(x)] = false; }
+                }
+                else if (b == "free")
+                {
+                    RBlock* blk = s.arena; FaultManager* fm = s.fm;
+                    // a destructor run on a slot that holds no object either crashes or frees a stale pointer: both are `ub`
+                    if (!survives([blk, fm]() { long b0 = fm->bad; XalanDestroy(*fm, blk); if (fm->bad != b0) _exit(9); })) out = "ub";
+                    else
+                    {
+                        XalanDestroy(*s.fm, s.arena); s.arena = 0; s.isObj.clear();
+                        std::cout << tail(s, out, "destroyed") << "\n";
+                        continue;
+                    }
+                }
+                else out = "bad";
+                if (out == "ub") dead = true;
+                std::cout << tail(s, out, showArena(s, full)) << "\n";
+            }
             else std::cout << "bad\n";
         }
         catch (const Refused&)
         {
-            std::cout << tail(s, "oom", a == "l" ? showList(s) : showVec(s)) << "\n";
+            std::cout << tail(s, "oom", a == "l" ? showList(s) : a == "a" ? (s.arena ? showArena(s, false) : std::string("none")) : a == "d" ? showDeque(s) : showVec(s)) << "\n";
         }
     }
     return 0;
